@@ -911,6 +911,12 @@ where
 
         let (exit_state, exit_reason, was_killed, mut ports) = loop_done??;
 
+        // a killed actor does not shut down cleanly: no `post_stop`, and its
+        // last state is not reported to the supervisor
+        if was_killed {
+            return Err(ActorErr::Cancelled);
+        }
+
         // if we didn't exit in error mode, call `post_stop`
         if !was_killed {
             match ports
